@@ -83,8 +83,17 @@ def run_peer(ctx, p, steps, max_pdu=16382):
             else:
                 ok = p.send(data)
             if p.stalled:
-                sim.record("peer_stall", i=i, sent=p.sent)
-                sim.count("fault.stall")
+                end = getattr(p, "end_action", "stall")
+                if end == "close":
+                    sim.record("peer_close", i=i, sent=p.sent)
+                    sim.count("fault.close")
+                    p.close()
+                elif end == "reset":
+                    sim.record("peer_reset", i=i, sent=p.sent)
+                    p.reset()
+                else:
+                    sim.record("peer_stall", i=i, sent=p.sent)
+                    sim.count("fault.stall")
                 seen.append("stalled")
                 break
             if not ok:
@@ -155,6 +164,9 @@ def execute(sc, ctx, handlers=None, configure=None):
         ctx.start_server(ae, handlers=hh)
         p = RawPeer(ctx)
         p.budget = sc.get("budget")
+        p.end_action = sc.get("end", "stall")
+        p.split_at = sc.get("split_at")
+        p.split_gap = sc.get("split_gap", 0.0)
         p.connect()
         ctx.obs["cid"] = p.cid
         user_th = None
@@ -181,6 +193,9 @@ def execute(sc, ctx, handlers=None, configure=None):
     else:
         p = RawPeer(ctx)
         p.budget = sc.get("budget")
+        p.end_action = sc.get("end", "stall")
+        p.split_at = sc.get("split_at")
+        p.split_gap = sc.get("split_gap", 0.0)
         p.listen(11113)
 
         def peer_thread():
@@ -206,6 +221,9 @@ def execute(sc, ctx, handlers=None, configure=None):
             if not assoc.is_established and op["op"] not in ("sleep",):
                 break
             res.append(_do_op(ctx, ae, assoc, op))
+        if assoc.is_established and any(op["op"] == "find" for op in sc.get("user", [])):
+            # an abandoned response iterator keeps the reactor paused: such a script ends the association itself
+            res.append(_do_op(ctx, ae, assoc, {"op": "release"}))
         ctx.obs["user_done_t"] = sim.now
         sim.record("user_done")
         pt.join()
